@@ -53,6 +53,14 @@ package cors
 //@   ensures C16.fail_uniform: old(m.icfg) != nil && !old(m.debug) && old(IsPreflight(r)) && !old(PreflightOK(old(m.icfg), r, false)) ==> status() == 403 && NoCORSHeaderChanged(w)
 //@   ensures C16.success_values: old(m.icfg) != nil && !old(m.debug) && old(IsPreflight(r)) ==> (Changed(w, "Access-Control-Allow-Methods") ==> get(hdr(w), "Access-Control-Allow-Methods") === headers.WildcardSgl || get(hdr(w), "Access-Control-Allow-Methods") === old(ACRMSglOf(r))) && (Changed(w, "Access-Control-Allow-Headers") ==> get(hdr(w), "Access-Control-Allow-Headers") === headers.WildcardSgl || get(hdr(w), "Access-Control-Allow-Headers") === headers.WildcardAuthSgl || get(hdr(w), "Access-Control-Allow-Headers") === old(ACRHOf(r))) && (Changed(w, "Access-Control-Allow-Private-Network") ==> get(hdr(w), "Access-Control-Allow-Private-Network") === headers.TrueSgl) && (Changed(w, "Access-Control-Allow-Origin") ==> get(hdr(w), "Access-Control-Allow-Origin") === headers.WildcardSgl || get(hdr(w), "Access-Control-Allow-Origin") === old(OriginSglOf(r))) && (Changed(w, "Access-Control-Allow-Credentials") ==> get(hdr(w), "Access-Control-Allow-Credentials") === headers.TrueSgl) && (Changed(w, "Access-Control-Max-Age") ==> get(hdr(w), "Access-Control-Max-Age") === old(m.icfg).acma)
 
+//@   ensures C09.debug_irrelevant_unless_preflight: old(m.icfg) != nil && !old(IsPreflight(r)) ==> nodep(old(m.debug))
+//@   ensures C09.passthrough_ignores_debug: old(m.icfg) == nil ==> nodep(old(m.debug))
+//@   ensures C09.success_status_same: old(m.icfg) != nil && old(IsPreflight(r)) && old(PreflightOK(old(m.icfg), r, false)) ==> status() == old(m.icfg).preflightStatusMinus200 + 200
+//@   ensures C09.success_headers_same: old(m.icfg) != nil && old(IsPreflight(r)) && old(PreflightOK(old(m.icfg), r, false)) ==> get(hdr(w), "Access-Control-Allow-Origin") === (old(AllowAll(old(m.icfg))) ? headers.WildcardSgl : old(OriginSglOf(r))) && (old(m.icfg).credentialed ? get(hdr(w), "Access-Control-Allow-Credentials") === headers.TrueSgl : !Changed(w, "Access-Control-Allow-Credentials")) && (old(PNARequested(r)) ? get(hdr(w), "Access-Control-Allow-Private-Network") === headers.TrueSgl : !Changed(w, "Access-Control-Allow-Private-Network")) && (old(methods.IsSafelisted(ACRMOf(r))) ? !Changed(w, "Access-Control-Allow-Methods") : get(hdr(w), "Access-Control-Allow-Methods") === ((old(m.icfg).allowAnyMethod && !old(m.icfg).credentialed) ? headers.WildcardSgl : old(ACRMSglOf(r)))) && (old(m.icfg).acma != nil ? get(hdr(w), "Access-Control-Max-Age") === old(m.icfg).acma : !Changed(w, "Access-Control-Max-Age")) && !Changed(w, "Access-Control-Expose-Headers")
+//@   ensures C09.success_acah_same_or_full_list: old(m.icfg) != nil && old(IsPreflight(r)) && old(PreflightOK(old(m.icfg), r, false)) ==> (!old(HasACRH(r)) ? !Changed(w, "Access-Control-Allow-Headers") : (old(m.icfg).asteriskReqHdrs ? get(hdr(w), "Access-Control-Allow-Headers") === (old(m.icfg).credentialed ? old(ACRHOf(r)) : (old(m.icfg).allowAuthorization ? headers.WildcardAuthSgl : headers.WildcardSgl)) : (get(hdr(w), "Access-Control-Allow-Headers") === old(ACRHOf(r)) || (old(m.debug) && get(hdr(w), "Access-Control-Allow-Headers") === old(m.icfg).acah))))
+//@   ensures C09.debug_off_failure_is_bare: old(m.icfg) != nil && !old(m.debug) && old(IsPreflight(r)) && !old(PreflightOK(old(m.icfg), r, false)) ==> status() == 403 && NoCORSHeaderChanged(w)
+//@   ensures C09.vary_ignores_debug: old(m.icfg) != nil && old(IsPreflight(r)) ==> (old(has(hdr(w), "Vary")) ? len(get(hdr(w), "Vary")) == len(old(get(hdr(w), "Vary"))) + 1 : get(hdr(w), "Vary") === headers.PreflightVarySgl)
+
 //@ func newInternalConfig
 //@   props C04 C05 C06 C08 C09 C15 C17
 //@   trusted TEMPORARY until L6 (validators) is under contract
